@@ -892,6 +892,13 @@ def run_wire(ctx, env, DEFAULTS, cases, dconv):
                     r = run_impl_all(og.main)
                 if "maps" not in captured:
                     ctx.stat("wire:argv:not-merged")
+                    # the command line above uses only documented options of `ofxget stmt` / `stmtend` with well-typed
+                    # values: if the run ends before the settings are even merged, the argument parser refused it — the
+                    # accounts typed on the command line can then not be requested at all
+                    ctx.violate("documented_command_line_rejected",
+                                {"kind": kind, "label": "wire-argv", "argv": argv[1:]},
+                                f"`ofxget {' '.join(argv[1:])}` ended before merge_config ({r[0]} {r[1] if r[0] != 'ok' else ''}): "
+                                f"a documented option of `ofxget {kind}` is not accepted", {"kind": kind})
                     continue
                 maps = captured["maps"]
                 try:
